@@ -1,10 +1,12 @@
 (* Line-protocol driver around the extracted Coq models.
    Request: op TAB arg TAB arg ...   Reply: one line. *)
+module S = Stdlib.String
+module L = Stdlib.List
 open Datatypes
 open BinNums
 open Proc
 
-let split_tab s = String.split_on_char '\t' s
+let split_tab s = S.split_on_char '\t' s
 
 let rec nat_of_int n = if n <= 0 then O else S (nat_of_int (n - 1))
 
@@ -19,16 +21,16 @@ let rec int_of_pos = function Coq_xH -> 1 | Coq_xO p -> 2 * int_of_pos p | Coq_x
 
 let int_of_n = function N0 -> 0 | Npos p -> int_of_pos p
 
-let ints_of_csv s = if s = "" then [] else List.map int_of_string (String.split_on_char ',' s)
+let ints_of_csv s = if s = "" then [] else L.map int_of_string (S.split_on_char ',' s)
 
 let bool_of_char c = c = '1'
 
 let params_of_string s =
   if s = "code" then GenProc.code_params
   else
-    { bg_guard = bool_of_char s.[0]; guard_under_lock = bool_of_char s.[1];
-      bg_notify = bool_of_char s.[2]; pub_marks_known = bool_of_char s.[3];
-      pub_notify = bool_of_char s.[4]; query_waits = bool_of_char s.[5] }
+    { bg_guard = bool_of_char (S.get s (0)); guard_under_lock = bool_of_char (S.get s (1));
+      bg_notify = bool_of_char (S.get s (2)); pub_marks_known = bool_of_char (S.get s (3));
+      pub_notify = bool_of_char (S.get s (4)); query_waits = bool_of_char (S.get s (5)) }
 
 let string_of_params p =
   let b x = if x then "1" else "0" in
@@ -44,32 +46,105 @@ let string_of_val = function Pending -> "Pending" | G -> "G" | K -> "K"
 let op_proc = function
   | [ publish; n; evs; ps ] ->
       let p = params_of_string ps in
-      let es = List.map ev_of_char (List.of_seq (String.to_seq evs)) in
+      let es = L.map ev_of_char (L.of_seq (S.to_seq evs)) in
       (match exec p es (init (publish = "1") (nat_of_int (int_of_string n))) with
-       | Some s -> "OK\t" ^ String.concat "," (List.map string_of_val (results s))
+       | Some s -> "OK\t" ^ S.concat "," (L.map string_of_val (results s))
        | None -> "INFEASIBLE")
+  | _ -> "BADARGS"
+
+(* ---- text <-> hex(UTF-8) *)
+let hex_decode s =
+  let n = S.length s / 2 in
+  S.init n (fun i -> Char.chr (int_of_string ("0x" ^ S.sub s (2 * i) 2)))
+
+let hex_encode s =
+  let b = Buffer.create (2 * S.length s) in
+  S.iter (fun c -> Buffer.add_string b (Printf.sprintf "%02x" (Char.code c))) s;
+  Buffer.contents b
+
+(* UTF-8 -> scalar values (invalid bytes become U+FFFD) *)
+let cps_of_utf8 s =
+  let n = S.length s in
+  let rec go i acc =
+    if i >= n then L.rev acc
+    else
+      let c = Char.code (S.get s (i)) in
+      let cont k = if i + k < n then Char.code (S.get s (i + k)) land 0x3f else 0 in
+      if c < 0x80 then go (i + 1) (c :: acc)
+      else if c land 0xe0 = 0xc0 && i + 1 < n then go (i + 2) ((((c land 0x1f) lsl 6) lor cont 1) :: acc)
+      else if c land 0xf0 = 0xe0 && i + 2 < n then
+        go (i + 3) ((((c land 0x0f) lsl 12) lor (cont 1 lsl 6) lor cont 2) :: acc)
+      else if c land 0xf8 = 0xf0 && i + 3 < n then
+        go (i + 4) ((((c land 0x07) lsl 18) lor (cont 1 lsl 12) lor (cont 2 lsl 6) lor cont 3) :: acc)
+      else go (i + 1) (0xfffd :: acc)
+  in
+  go 0 []
+
+let utf8_of_cps cps =
+  let b = Buffer.create 64 in
+  L.iter (fun c -> Buffer.add_utf_8_uchar b (Uchar.of_int (if c > 0x10ffff || (c >= 0xd800 && c < 0xe000) then 0xfffd else c))) cps;
+  Buffer.contents b
+
+let text_of_hex h = L.map n_of_int (cps_of_utf8 (hex_decode h))
+let hex_of_text t = hex_encode (utf8_of_cps (L.map int_of_n t))
+
+let lines_of_arg a = if a = "" then [] else L.map text_of_hex (S.split_on_char ',' a)
+
+let string_of_oitem (idx, it) =
+  let i = string_of_int (int_of_nat idx) in
+  match it with
+  | Delta.IRaw t -> i ^ ":R:" ^ hex_of_text t
+  | Delta.IFileHeader (t, m) -> i ^ ":F:" ^ hex_of_text t ^ ":" ^ hex_of_text m
+  | Delta.IHunkHeader (frag, n, raw) -> i ^ ":H:" ^ hex_of_text frag ^ ":" ^ string_of_int (int_of_n n) ^ ":" ^ hex_of_text raw
+  | Delta.ILine (k, t) ->
+      let ks = match k with Delta.KMinus -> "-" | Delta.KPlus -> "+" | Delta.KZero -> "0" | Delta.KOther -> "o" in
+      i ^ ":L:" ^ ks ^ ":" ^ hex_of_text t
+
+let delta_cfg co tabs lbs =
+  { Delta.color_only = (co = "1"); Delta.tab_width = nat_of_int (int_of_string tabs);
+    Delta.line_buffer_size = nat_of_int (int_of_string lbs) }
+
+(* delta_run color_only tabs lbs lines *)
+let op_delta_run = function
+  | [ co; tabs; lbs; lines ] ->
+      let items = Delta.run (delta_cfg co tabs lbs) (lines_of_arg lines) in
+      "OK\t" ^ S.concat ";" (L.map string_of_oitem items)
+  | _ -> "BADARGS"
+
+(* delta_prefix color_only tabs lbs k lines : state after the first k lines (no end of input) *)
+let op_delta_prefix = function
+  | [ co; tabs; lbs; k; lines ] ->
+      let ls = lines_of_arg lines in
+      let rec take n l = if n <= 0 then [] else match l with [] -> [] | x :: r -> x :: take (n - 1) r in
+      let s = Delta.steps (delta_cfg co tabs lbs) (Delta.number_from O (take (int_of_string k) ls)) Delta.init in
+      "OK\t" ^ S.concat ";" (L.map string_of_oitem (Delta.out s))
+      ^ "\t" ^ string_of_int (L.length (Delta.buf s))
+      ^ "\t" ^ string_of_int (L.length (Delta.minus_lines s))
+      ^ "\t" ^ string_of_int (L.length (Delta.plus_lines s))
   | _ -> "BADARGS"
 
 (* blame_run n keys gitflags *)
 let op_blame_run = function
   | [ n; keys; flags ] ->
       let ks = ints_of_csv keys in
-      let ls = List.mapi (fun i k -> (n_of_int k, flags.[i] = '1')) ks in
+      let ls = L.mapi (fun i k -> (n_of_int k, (S.get flags (i)) = '1')) ks in
       (match Blame.run (nat_of_int (int_of_string n)) Blame.init ls with
        | Blame.Ok cs ->
-           "OK\t" ^ String.concat ","
-             (List.map (function Some c -> string_of_int (int_of_nat c) | None -> "-") cs)
+           "OK\t" ^ S.concat ","
+             (L.map (function Some c -> string_of_int (int_of_nat c) | None -> "-") cs)
        | Blame.Panic w -> "PANIC\t" ^ string_of_int (int_of_nat w))
   | _ -> "BADARGS"
 
 (* blame_spec keys colours : the property on rendered rows *)
 let op_blame_spec = function
   | [ keys; cols ] ->
-      let rows = List.map2 (fun k c -> (n_of_int k, nat_of_int c)) (ints_of_csv keys) (ints_of_csv cols) in
+      let rows = L.map2 (fun k c -> (n_of_int k, nat_of_int c)) (ints_of_csv keys) (ints_of_csv cols) in
       if Blame.specb [] rows then "true" else "false"
   | _ -> "BADARGS"
 
 let dispatch = function
+  | "delta_run" :: args -> op_delta_run args
+  | "delta_prefix" :: args -> op_delta_prefix args
   | "blame_run" :: args -> op_blame_run args
   | "blame_spec" :: args -> op_blame_spec args
   | "ping" :: _ -> "pong"
